@@ -614,7 +614,7 @@ func runC08(r *mc.Run) {
 		depth = 3
 		r.SetBudget(13 * 60 * 1e9)
 	} else {
-		r.SetBudget(170 * 1e9)
+		r.SetBudget(300 * 1e9)
 	}
 	r.Bounds["depth_blocks"] = depth
 	r.Rule = "at every state of a tree search over block histories (2 validators, relayer proposer + 1 voter; menu with queue-filling events, unlock maturity, elections): (honest) for 8 mempool classes the real PrepareProposal output must be ACCEPTed by a second replica, carry <= 16 txs and its execution-block message must succeed in FinalizeBlock; (converse) 37 single mutations of a well-formed proposal must be rejected by ProcessProposal and must not move the head when finalised anyway; (sizes) execution blocks of 0.5 MiB - 6 MB and bursts of 400 / 1000 requests of one kind; (encodings) proposals with an extra leading byte in a fixed-size field: if accepted and committed, the next honest proposals must still be accepted and applied; (shared account) the same honest-proposal checks on a chain whose validator key is also the relayer proposer's key; (schedules, races) see schedule_* keys"
